@@ -16,7 +16,9 @@ import (
 //     captured variables);
 //   - a method value bound to a struct that confirmEvents builds (`c := &T{frame: frame, cb: cb};
 //     walk(atropos, c.visit)`): the receiver's fields stand for the expressions of the literal, provided
-//     those fields are assigned nowhere else in the package.
+//     those fields are assigned nowhere else in the package;
+//   - such a struct itself, handed to a walk whose parameter is an interface with a single method: the
+//     filter is the struct type's method of that name.
 //
 // Candidate for promotion to core/helpers: "a function value as a view" (closure / forwarding closure /
 // bound method).
@@ -29,7 +31,8 @@ type c02Filter struct {
 	own []*core.FuncInfo
 }
 
-func c02FilterOf(f *core.FuncInfo, arg ast.Expr, frame, cb *types.Var) (c02Filter, bool) {
+// want is the type of the walk's parameter that receives arg (nil when not known).
+func c02FilterOf(f *core.FuncInfo, arg ast.Expr, want types.Type, frame, cb *types.Var) (c02Filter, bool) {
 	p := f.P
 	val := resolveLocal(f, arg)
 	if lit, ok := val.(*ast.FuncLit); ok {
@@ -72,15 +75,36 @@ func c02FilterOf(f *core.FuncInfo, arg ast.Expr, frame, cb *types.Var) (c02Filte
 		return out, true
 	}
 	// a bound method
-	sel, ok := val.(*ast.SelectorExpr)
-	if !ok {
+	if sel, ok := val.(*ast.SelectorExpr); ok {
+		s, ok := f.Info().Selections[sel]
+		if !ok || s.Kind() != types.MethodVal {
+			return c02Filter{}, false
+		}
+		fn, _ := s.Obj().(*types.Func)
+		return c02BoundFilter(f, fn, sel.X, sel, frame, cb)
+	}
+	// a value of a module type handed to a walk that takes a small interface: the filter is the type's
+	// method that implements the interface's single method (`walk(atropos, &confirmer{frame: frame, …})`)
+	if want == nil || c01StructFields(f, val) == nil {
 		return c02Filter{}, false
 	}
-	s, ok := f.Info().Selections[sel]
-	if !ok || s.Kind() != types.MethodVal {
+	it, ok := want.Underlying().(*types.Interface)
+	if !ok || it.NumMethods() != 1 {
 		return c02Filter{}, false
 	}
-	fn, _ := s.Obj().(*types.Func)
+	t := f.Info().TypeOf(val)
+	if t == nil {
+		return c02Filter{}, false
+	}
+	m := it.Method(0)
+	obj, _, _ := types.LookupFieldOrMethod(t, true, m.Pkg(), m.Name())
+	fn, _ := obj.(*types.Func)
+	return c02BoundFilter(f, fn, val, val, frame, cb)
+}
+
+// c02BoundFilter: the filter is method fn called on the struct value that recvExpr builds in f.
+func c02BoundFilter(f *core.FuncInfo, fn *types.Func, recvExpr ast.Expr, within ast.Node, frame, cb *types.Var) (c02Filter, bool) {
+	p := f.P
 	if fn == nil {
 		return c02Filter{}, false
 	}
@@ -88,7 +112,7 @@ func c02FilterOf(f *core.FuncInfo, arg ast.Expr, frame, cb *types.Var) (c02Filte
 	if g == nil || g.Recv() == nil {
 		return c02Filter{}, false
 	}
-	fields := c01StructFields(f, sel.X)
+	fields := c01StructFields(f, recvExpr)
 	if fields == nil {
 		return c02Filter{}, false
 	}
@@ -127,7 +151,7 @@ func c02FilterOf(f *core.FuncInfo, arg ast.Expr, frame, cb *types.Var) (c02Filte
 		}
 	}
 	out := c02Filter{fn: g, ev: g.Param(0), isFrame: callerVar(frame), isCb: callerVar(cb)}
-	if c02OnlyUsedIn(p, fn, sel) {
+	if c02OnlyUsedIn(p, fn, within) {
 		out.own = append(out.own, g)
 	}
 	return out, true
